@@ -29,7 +29,11 @@ LOG_KINDS = [("An exception occurred while rendering a resource", "LogException"
 
 # ----------------------------------------------------------------------------------------------- Gallina terms
 def g_msg(v):
-    return "{| m_code := %s; m_payload := %s; m_cf := %s; m_nr := %s |}" % (gopt(v["code"], gz), fw.gbytes(v["payload"]), gopt(v["cf"], gz), gopt(v["nr"], gz))
+    return "{| m_code := %s; m_payload := %s; m_cf := %s; m_nr := %s; m_obs := None |}" % (gopt(v["code"], gz), fw.gbytes(v["payload"]), gopt(v["cf"], gz), gopt(v["nr"], gz))
+def g_mode(m):
+    if isinstance(m, dict): return "(ORaise %s)" % g_exc(m["raise"])
+    return {"accept": "OAccept", "decline": "ODecline", "dereg": "OAcceptDeregister"}[m]
+def is_obs(kind): return isinstance(kind, dict)
 def g_value(v):
     k = v["v"]
     if k == "msg": return "(VMsg %s)" % g_msg(v)
@@ -51,12 +55,17 @@ def g_outcome(o):
     if o["k"] == "raise": return "(Raise_ %s)" % g_exc(o["exc"])
     return "(Script %s)" % glist([g_raction(a) for a in o["actions"]])
 def g_request(r):
-    return ("{| r_id := %s; r_remote := %s; r_token := %s; r_mid := %s; r_con := %s; r_code := %s; r_path := %s; r_nr := %s; r_slow := %s; r_outcome := %s |}"
+    return ("{| r_id := %s; r_remote := %s; r_token := %s; r_mid := %s; r_con := %s; r_code := %s; r_path := %s; r_nr := %s; r_obs := %s; r_slow := %s; r_outcome := %s |}"
             % (gz(r["id"]), gz(r["remote"]), fw.gbytes(r["token"]), gz(r["mid"]), gbool(r["con"]), gz(r["code"]), glist([gz(x) for x in r["path"]]),
-               gopt(r["nr"], gz), gbool(r["slow"]), g_outcome(r["outcome"])))
+               gopt(r["nr"], gz), gopt(r.get("obs"), gz), gbool(r["slow"]), g_outcome(r["outcome"])))
 def g_site(s):
     if s is None: return "None"
-    return "(Some %s)" % glist(["(%s, %s)" % (glist([gz(x) for x in e["path"]]), "Raw" if e["kind"] == "raw" else "Plain %s" % glist([gz(m) for m in e["kind"]])) for e in s])
+    return "(Some %s)" % glist(["(%s, %s)" % (glist([gz(x) for x in e["path"]]), g_kind(e["kind"])) for e in s])
+def g_kind(k):
+    if k == "raw": return "Raw"
+    if is_obs(k): return "Observable %s %s" % (glist([gz(m) for m in k["obs"]]), g_mode(k["mode"]))
+    return "Plain %s" % glist([gz(m) for m in k])
+def methods_of(k): return k["obs"] if is_obs(k) else k
 
 
 # ----------------------------------------------------------------------------------------------- generators
@@ -99,11 +108,23 @@ def rnd_outcome(rng, idx, raw=False):
     if k < 0.5: return {"k": "return", "value": rnd_value(rng)}
     return {"k": "raise", "exc": rnd_exc(rng, idx)}
 
+_CRE = lambda cls, text=None: {"e": "cre", "cls": cls, "text": text, "badtext": None}
+OBS_ENTRIES = [
+    {"path": [20], "kind": {"obs": [1, 2, 3, 4, 5, 6, 7], "mode": "accept", "flavour": "resource"}},
+    {"path": [21], "kind": {"obs": [1, 2, 3, 4, 5, 6, 7], "mode": "decline", "flavour": "resource"}},
+    {"path": [22], "kind": {"obs": [1, 5], "mode": "decline", "flavour": "mixed"}},
+    {"path": [23], "kind": {"obs": [1, 2, 5], "mode": "accept", "flavour": "mixed"}},
+    {"path": [24], "kind": {"obs": [1, 5], "mode": "dereg", "flavour": "resource"}},
+    {"path": [25], "kind": {"obs": [1, 5], "mode": {"raise": {"e": "other", "cls": "RuntimeError"}}, "flavour": "resource"}},
+    {"path": [26], "kind": {"obs": [1, 5], "mode": {"raise": _CRE("ServiceUnavailable", "observers full")}, "flavour": "mixed"}},
+]
+OBS_PATHS = [e["path"] for e in OBS_ENTRIES]
 SITES = [
     [{"path": [1], "kind": [1, 2, 3, 4, 5, 6, 7]}, {"path": [2], "kind": [1]}, {"path": [3, 4], "kind": [2, 3, 4]}, {"path": [5], "kind": "raw"}, {"path": [], "kind": [1, 5]}],
     [{"path": [1], "kind": [1, 2, 3, 4, 5, 6, 7]}, {"path": [5], "kind": "raw"}, {"path": [6], "kind": []}],
+    [{"path": [1], "kind": [1, 2, 3, 4, 5, 6, 7]}, {"path": [5], "kind": "raw"}] + OBS_ENTRIES,
 ]
-def rnd_request(rng, idx, site, used_mids, remote=None, token=None, raw_bias=0.0):
+def rnd_request(rng, idx, site, used_mids, remote=None, token=None, raw_bias=0.0, obs_bias=0.0):
     remote = rng.randrange(3) if remote is None else remote
     while True:
         mid = rng.randrange(65536)
@@ -112,11 +133,15 @@ def rnd_request(rng, idx, site, used_mids, remote=None, token=None, raw_bias=0.0
     p = rng.random()
     if site is None: path = rng.choice([[1], [], [9]])
     elif rng.random() < raw_bias: path = [5]
+    elif rng.random() < obs_bias and any(is_obs(e["kind"]) for e in site): path = rng.choice([e["path"] for e in site if is_obs(e["kind"])])
     elif p < 0.12: path = rng.choice([[9], [1, 1], [3], [4], [3, 4, 1], [0]] + ([[]] if not any(e["path"] == [] for e in site) else []))
     else: path = rng.choice([e["path"] for e in site])
     raw = site is not None and any(e["path"] == path and e["kind"] == "raw" for e in site)
     code = rng.choice([1, 1, 1, 2, 3, 4, 5, 6, 7, rng.choice([8, 9, 30, 31])])
-    return {"id": idx, "remote": remote, "token": token, "mid": mid, "con": rng.random() < 0.6, "code": code, "path": path,
+    kind = next((e["kind"] for e in site if e["path"] == path), None) if site is not None else None
+    obs = rng.choice([None, None, None, None, None, None, 0, 1, 7])
+    if is_obs(kind): obs = rng.choice([0, 0, 0, 0, None, 1, 2]); code = rng.choice([1, 1, 1, 5, 5, 2, code])
+    return {"obs": obs, "id": idx, "remote": remote, "token": token, "mid": mid, "con": rng.random() < 0.6, "code": code, "path": path,
             "nr": rng.choice(NR_VALUES), "slow": rng.random() < 0.5, "mcast": rng.random() < 0.1, "outcome": rnd_outcome(rng, idx, raw)}
 
 TICKS = [1, 50000, 99999, 100000, 100001, 150000, 200000]
@@ -124,7 +149,11 @@ def eff_slow(site, r):
     """a slow handler only delays requests that reach it"""
     if not r["slow"] or site is None: return False
     res = next((e for e in site if e["path"] == r["path"]), None)
-    return res is not None and (res["kind"] == "raw" or r["code"] in res["kind"])
+    if res is None: return False
+    k = res["kind"]
+    if k == "raw": return True
+    if is_obs(k) and isinstance(k["mode"], dict) and r.get("obs") == 0: return False     # add_observation raises before the handler
+    return r["code"] in methods_of(k)
 def finish_script(reqs, script):
     """append what a patient, well-behaved environment does: let every handler finish, pass the empty-ACK delay, acknowledge everything"""
     done = {e[1] for e in script if e[0] == "done"}
@@ -144,9 +173,10 @@ def budget_ticks(script, limit=1500000):
         out.append(e)
     return out
 
-def gen_single(rng, raw_bias=0.0):
+def gen_single(rng, raw_bias=0.0, obs_bias=0.0):
     site = None if rng.random() < 0.06 else rng.choice(SITES)
-    r = rnd_request(rng, 0, site, set(), raw_bias=raw_bias)
+    if obs_bias: site = SITES[2]
+    r = rnd_request(rng, 0, site, set(), raw_bias=raw_bias, obs_bias=obs_bias)
     script = [["req", 0]]
     if r["slow"]:
         for _ in range(rng.choice([0, 0, 1, 2])): script.append(["tick", rng.choice(TICKS)])
@@ -155,8 +185,9 @@ def gen_single(rng, raw_bias=0.0):
     for _ in range(rng.choice([0, 1])): script.append(["tick", rng.choice(TICKS)])
     return {"site": site, "mid0": rng.choice([0, 1, 1000, 65535, 65534, rng.randrange(65536)]), "requests": [r], "script": finish_script([r], budget_ticks(script))}
 
-def gen_concurrent(rng, raw_bias=0.15):
+def gen_concurrent(rng, raw_bias=0.15, obs_bias=0.0):
     site = None if rng.random() < 0.03 else rng.choice(SITES)
+    if obs_bias: site = SITES[2]
     n = rng.randint(2, 6); used = set(); reqs = []
     nrem = rng.choice([1, 1, 2, 3])
     for i in range(n):
@@ -168,7 +199,7 @@ def gen_concurrent(rng, raw_bias=0.15):
         while token is None:
             token = [rng.randrange(256) for _ in range(rng.choice([0, 1, 1, 2, 4, 8]))]
             if any(q["remote"] == remote and q["token"] == token for q in reqs) and rng.random() < 0.9: token = None
-        r = rnd_request(rng, i, site, used, remote=remote, token=token, raw_bias=raw_bias)
+        r = rnd_request(rng, i, site, used, remote=remote, token=token, raw_bias=raw_bias, obs_bias=obs_bias)
         if rng.random() < 0.3: r["slow"] = True
         reqs.append(r)
     script = []; pending = []; started = 0
@@ -226,6 +257,16 @@ def systematic():
                          "slow": mode != "fast", "mcast": False, "outcome": o}
                     script = [["req", 0]] + ([["tick", 100000]] if mode == "late" else []) + ([["done", 0]] if mode != "fast" else [])
                     yield {"site": site, "mid0": 500, "requests": [r], "script": finish_script([r], script)}
+    # every outcome kind on every kind of observable resource, with Observe=0
+    for o in outcomes:
+        for path in OBS_PATHS:
+            for con in (True, False):
+                for mode in ("fast", "late"):
+                    k += 1
+                    r = {"id": 0, "remote": 0, "token": [k % 256, 9], "mid": (k * 31) % 65536, "con": con, "code": 1, "path": path, "nr": None, "obs": 0,
+                         "slow": mode != "fast", "mcast": False, "outcome": o}
+                    script = [["req", 0]] + ([["tick", 100000], ["done", 0]] if mode == "late" else [])
+                    yield {"site": SITES[2], "mid0": 500, "requests": [r], "script": finish_script([r], script)}
 
 
 # ----------------------------------------------------------------------------------------------- running the real stack
@@ -253,7 +294,8 @@ class C09(fw.Property):
                   "the former finding (error renderer returning a non-Message never answered) is fixed in /repo (abf5426) and modelled as fixed. Not modelled: deduplication, retransmission, block-wise, observe, handlers raising BaseException "
                   "(CancelledError), Messages that carry a non-response code. Liveness of backlogged CON responses depends on client ACKs (C14).")
     rule = ("streams: single = one request (site/no site, known/unknown path, 7 methods + unknown codes, resources with partial method sets, CON/NON, No-Response values, "
-            "multicast flag, fast/slow handler, every outcome kind) ; concurrent = 2-6 requests from 1-3 remotes with random interleaving of arrival, handler completion, "
+            "multicast flag, Observe option, fast/slow handler, every outcome kind) ; observable (20 %) = requests with Observe=0 / other / none to resource.ObservableResource subclasses and "
+            "Resources mixed with interfaces.ObservableResource whose add_observation accepts, declines, accepts-then-deregisters or raises, alone and among neighbours ; concurrent = 2-6 requests from 1-3 remotes with random interleaving of arrival, handler completion, "
             "time steps around EMPTY_ACK_DELAY and client ACKs, token reuse and override ; pipe = resources implementing render_to_pipe that perform random sequences "
             "of add_response (final / non-final / non-message values), raise and return ; unencodable (4 %, oracle only, no model term) = a handler returning a Message whose payload is a str, followed by a well-behaved neighbour ; thorough adds the full product outcome x method x CON/NON x timing. "
             "Each case runs through the real stack and through Model/C09Stack.run_script; compared: every datagram (type, mid, code, token, payload, options), "
@@ -270,6 +312,7 @@ class C09(fw.Property):
         for k in range(n):
             m = k % 10
             if k % 25 == 24: yield "unencodable", gen_unencodable(rng); continue
+            if k % 5 == 3: yield "observable", (gen_single(rng, obs_bias=0.9) if k % 10 == 3 else gen_concurrent(rng, raw_bias=0.05, obs_bias=0.7)); continue
             if m < 4: yield "single", gen_single(rng)
             elif m < 8: yield "concurrent", gen_concurrent(rng)
             elif m < 9: yield "pipe", gen_single(rng, raw_bias=1.0)
@@ -347,11 +390,33 @@ class C09(fw.Property):
                         except Exception: env.add_raised += 1
                     elif a[0] == "raise": raise mkexc(a[1])
                     else: return
+        from aiocoap import interfaces
+        async def obs_add_observation(s, request, serverobservation):
+            mode = s.mode
+            if isinstance(mode, dict): raise mkexc(mode["raise"])
+            if mode == "decline": return
+            s.observers.add(serverobservation)
+            serverobservation.accept(lambda: s.observers.discard(serverobservation))
+            if mode == "dereg": serverobservation.deregister()
+        class ObsRes(resource.ObservableResource, PlainRes):        # the library's observable base class
+            def __init__(s, methods, mode):
+                PlainRes.__init__(s, methods); s._observations = set(); s.mode = mode; s.observers = set()
+            async def add_observation(s, request, serverobservation):
+                if s.mode == "accept": return await resource.ObservableResource.add_observation(s, request, serverobservation)
+                return await obs_add_observation(s, request, serverobservation)
+        class MixedObsRes(PlainRes, interfaces.ObservableResource):  # a plain Resource mixed with the interface (dispatch in resource.Resource.render_to_pipe)
+            def __init__(s, methods, mode):
+                PlainRes.__init__(s, methods); s.mode = mode; s.observers = set()
+            add_observation = obs_add_observation
+        def mkres(k):
+            if k == "raw": return RawRes()
+            if is_obs(k): return (ObsRes if k.get("flavour") == "resource" else MixedObsRes)(k["obs"], k["mode"])
+            return PlainRes(k)
         site = None
         if inp["site"] is not None:
             site = resource.Site()
             for e in inp["site"]:
-                site.add_resource(tuple("p%d" % x for x in e["path"]), RawRes() if e["kind"] == "raw" else PlainRes(e["kind"]))
+                site.add_resource(tuple("p%d" % x for x in e["path"]), mkres(e["kind"]))
         ctx, tman, mman, mi = simnet.make_stack(loop, site)
         class MI(simnet.FakeMI):
             def send(s, m):
@@ -374,9 +439,9 @@ class C09(fw.Property):
             wire = []
             for t, rem, raw, rid in mi.take():
                 d = Message.decode(raw, rem)
-                extra = sorted(int(o.number) for o in d.opt.option_list() if int(o.number) != 12)
+                extra = sorted(int(o.number) for o in d.opt.option_list() if int(o.number) not in (6, 12))
                 w = {"rq": rid, "to": int(rem.name[1:]), "t": TYPES[int(d.mtype)], "mid": d.mid, "code": int(d.code), "tok": list(d.token), "pl": list(d.payload),
-                     "cf": None if d.opt.content_format is None else int(d.opt.content_format), "x": extra}
+                     "cf": None if d.opt.content_format is None else int(d.opt.content_format), "obs": d.opt.observe, "x": extra}
                 if w["t"] == "CON": outstanding.setdefault(w["to"], []).append(w["mid"])
                 wire.append(w)
             logs = []
@@ -404,6 +469,7 @@ class C09(fw.Property):
                         m = Message(code=Code(r["code"]), mtype=Type.CON if r["con"] else Type.NON, mid=r["mid"], token=bytes(r["token"]),
                                     uri_path=tuple("p%d" % x for x in r["path"]), payload=bytes([r["id"]]))
                         if r["nr"] is not None: m.opt.no_response = r["nr"]
+                        if r.get("obs") is not None: m.opt.observe = r["obs"]
                         simnet.inject(loop, mman, m.encode(), addr(r))
                     elif ev[0] == "done":
                         f = env.futures.get(ev[1])
@@ -446,7 +512,7 @@ class C09(fw.Property):
         steps = []
         for w, l, n in os_:
             steps.append({"wire": [{"rq": x["w_rid"], "to": x["w_remote"], "t": TYPES[x["w_type"]], "mid": x["w_mid"], "code": x["w_code"], "tok": x["w_token"], "pl": x["w_payload"],
-                                    "cf": opt(x["w_cf"]), "x": []} for x in w], "log": list(l), "raised": n})
+                                    "cf": opt(x["w_cf"]), "obs": opt(x["w_obs"]), "x": []} for x in w], "log": list(l), "raised": n})
         return {"steps": steps, "end": {"incoming": summ[0], "piggy": summ[1], "active": summ[2], "backlogs": summ[3]}, "loop_exc": 0}
 
     # ------------------------------------------------------------------ oracle: the property on what the implementation put on the wire
@@ -458,7 +524,6 @@ class C09(fw.Property):
         res = next((e for e in site if e["path"] == r["path"]), None)
         if res is None: return ("not-found", 132, None, None, None)
         if res["kind"] == "raw": return ("raw", None, None, None, None)
-        if r["code"] not in res["kind"]: return ("no-method", 133, None, None, None)
         o = r["outcome"]
         def of_exc(e):
             if e["e"] == "cre":
@@ -474,6 +539,9 @@ class C09(fw.Property):
                 if tm == "raises" or tm["v"] != "msg": return ("broken-renderer" if tm == "raises" or tm["v"] == "none" else "renderer-non-message", 160, [], None, None)
                 return ("renderable", tm["code"], tm["payload"], tm["cf"], tm["nr"])
             return ("exception", 160, [], None, None)
+        k = res["kind"]
+        if is_obs(k) and r.get("obs") == 0 and isinstance(k["mode"], dict): return of_exc(k["mode"]["raise"])     # add_observation itself fails
+        if r["code"] not in methods_of(k): return ("no-method", 133, None, None, None)
         if o["k"] == "raise": return of_exc(o["exc"])
         v = o["value"]
         if v["v"] == "noresponse": return ("return-noresponse", None, [], None, 26)
@@ -486,6 +554,12 @@ class C09(fw.Property):
             code = 69 if r["code"] in (1, 5) else 66 if r["code"] == 4 else 68
         return (kind, code, v["payload"], v["cf"], v["nr"] if v["nr"] is not None else r["nr"])
 
+    def obs_mode(self, inp, r):
+        """mode of the observable resource a request with Observe=0 is addressed to, else None"""
+        if inp["site"] is None or r.get("obs") != 0: return None
+        res = next((e for e in inp["site"] if e["path"] == r["path"]), None)
+        return res["kind"]["mode"] if res is not None and is_obs(res["kind"]) else None
+
     def expected_seq(self, inp, r):
         """-> (kind, [(code|None, payload|None, cf|"any", effective no_response|None)], completes): the responses the property text demands for
         request r, in order, the last one final iff `completes` (a handler that never finalises is the handler's fault, not a violation).
@@ -493,6 +567,9 @@ class C09(fw.Property):
         kind, code, payload, cf, own_nr = self.expected(inp, r)
         def eff(nr): return nr if nr is not None else r["nr"]
         if kind == "renderer-non-message": return kind, [(160, [], "any", eff(None))], True
+        if kind in ("return-code", "return-default-code", "return-noresponse") and self.obs_mode(inp, r) == "accept" and (code is None or 64 <= code < 96):
+            # the observation is established: the first response is not final, carries Observe, and the request stays registered (C08 from here on)
+            return "observe-established:" + kind, [(code, payload, cf, eff(own_nr))], False
         if kind != "raw":
             return kind, [(code, payload, cf if kind.startswith("return") and kind != "return-unencodable" else "any", eff(own_nr))], True
         seq = []
@@ -554,8 +631,11 @@ class C09(fw.Property):
             i = r["id"]
             kind, seq, completes = exp[i]; ws = got[i]
             key_shared = sum(1 for q in reqs if q["id"] in started and q["remote"] == r["remote"] and q["token"] == r["token"]) > 1
-            if kind == "return-noresponse": seq = []
+            established = kind.startswith("observe-established")
+            if kind.endswith("return-noresponse"): seq = []
             visible = [x for x in seq if not hidden(x)]
+            for w in ws:
+                if (w["obs"] is not None) != established: return ("C09:observe-option:" + kind, "request %d: response carries Observe=%r" % (i, w["obs"]))
             if i in overridden or i not in finished:
                 if len(ws) > len(visible): return ("C09:count:%s:%d>%d" % (kind, len(ws), len(visible)), "request %d got %d responses although it never finished" % (i, len(ws)))
                 return None
@@ -582,6 +662,9 @@ class C09(fw.Property):
             if r["id"] not in started: continue
             v = check_request(r)
             if v is not None:
+                if self.obs_mode(inp, r) == "decline" and exp[r["id"]][0] in ("renderable", "no-method"):
+                    return ("C09:declined-observation:error-replaced-by-500", "Observe=0 to an observable resource that declines the observation: the handler's renderable error is replaced "
+                            "by the AttributeError of `finally: servobs._cancellation_callback()` — " + v[1])
                 if exp[r["id"]][0] == "renderer-non-message":
                     return ("C09:no-response:to_message-returned-non-message", "request %d: to_message() returned a non-Message; one bare 5.00 expected, but: %s" % (r["id"], v[1]))
                 return v
